@@ -1,4 +1,5 @@
 import Afkak.Producer
+import Afkak.ProducerR
 import Afkak.Monitor.C01
 import Afkak.Monitor.C09
 import Afkak.Monitor.C19
@@ -110,6 +111,21 @@ def parseEv : List String → Option Ev
     some (.stop (← parseBool01 w) (← parsePout pout) (← parseList parseMout "," mouts))
   | _ => none
 
+/-- a call made by a callback: `s@topic@key@msgs` | `c@sid` | `x@wipe@pout@mouts` -/
+def parseAction (s : String) : Option Afkak.ProducerR.Action :=
+  match s.splitOn "@" with
+  | ["s", topic, key, msgs] => do some (.send (← topic.toNat?) (← parseKey key) (← parseList parseMsg "," msgs))
+  | ["c", sid] => sid.toNat?.map .cancel
+  | ["x", w, pout, mouts] => do some (.stop (← parseBool01 w) (← parsePout pout) (← parseList parseMout "," mouts))
+  | _ => none
+
+/-- events of the re-entrant machine: the flat ones, and `sendh sid topic key msgs hook` (hook: actions joined by `|`) -/
+def parseEvR : List String → Option Afkak.ProducerR.EvR
+  | ["sendh", sid, topic, key, msgs, hook] => do
+    some (.sendH (← sid.toNat?) (← topic.toNat?) (← parseKey key) (← parseList parseMsg "," msgs)
+      (← parseList parseAction "|" hook))
+  | ws => (parseEv ws).map .flat
+
 /-- `init acks maxAttempts initInterval batchSend n b t partitioner` -/
 def parseCfg : List String → Option Cfg
   | [acks, mx, iv, bs, n, b, t, part] => do
@@ -158,6 +174,12 @@ def showOb : Ob → String
   | .resetMeta ts => s!"resetmeta {showNats ts}"
   | .stopLooper => "stoplooper"
   | .badOp => "badop"
+
+def showObR : Afkak.ProducerR.ObR → String
+  | .ob o => showOb o
+  | .hookBegin sid => s!"hookbegin {sid}"
+  | .hookEnd => "hookend"
+  | .depthOut => "depthout"
 
 def b01 (b : Bool) : String := if b then "1" else "0"
 
